@@ -334,23 +334,25 @@ func (f *focusHandler) focusWidget(app *App, w Widget) error {
 		return nil
 	}
 
-	cmd, err := f.focused.HandleEvent(vaxis.FocusOut{}, TargetPhase)
-	if err != nil {
-		return err
-	}
-	app.handleCommand(cmd)
-	// Change the focused widget before we send the focus in event. If the
-	// newly focused widget changes focus again, we need to set this before
-	// the handleCommand call
+	// The change is completed - the focus switched, one FocusOut delivered
+	// to the old widget and one FocusIn to the new one - before the commands
+	// the two handlers return are interpreted: either of them may change the
+	// focus again, which is then a change of its own from the new widget
+	old := f.focused
 	f.focused = w
 	// Events are routed along the path, which has to follow the focus now
 	// and not only after the next frame
 	f.findPath()
-	cmd, err = w.HandleEvent(vaxis.FocusIn{}, TargetPhase)
+	outCmd, err := old.HandleEvent(vaxis.FocusOut{}, TargetPhase)
 	if err != nil {
 		return err
 	}
-	app.handleCommand(cmd)
+	inCmd, err := w.HandleEvent(vaxis.FocusIn{}, TargetPhase)
+	if err != nil {
+		return err
+	}
+	app.handleCommand(outCmd)
+	app.handleCommand(inCmd)
 
 	return nil
 }
